@@ -4068,6 +4068,33 @@ impl<T: TypeConfig> LeaderState<T> {
     }
 }
 
+#[cfg(feature = "verif-hooks")]
+impl<T: TypeConfig> LeaderState<T> {
+    pub fn verif_expire_timer(&mut self) {
+        self.timer.verif_expire();
+    }
+
+    pub fn verif_queues(&self) -> [usize; 7] {
+        [
+            self.pending_client_writes.values().map(|m| m.senders.len()).sum(),
+            self.pending_write_apply.len(),
+            self.pending_reads.values().map(|b| b.requests.len()).sum(),
+            self.pending_lease_reads.len(),
+            self.pending_commit_actions.len(),
+            self.propose_buffer.len(),
+            self.linearizable_read_buffer.len(),
+        ]
+    }
+
+    pub fn verif_match_index(&self) -> &HashMap<u32, u64> {
+        &self.match_index
+    }
+
+    pub fn verif_cluster_metadata(&self) -> &ClusterMetadata {
+        &self.cluster_metadata
+    }
+}
+
 impl<T: TypeConfig> From<&CandidateState<T>> for LeaderState<T> {
     fn from(candidate: &CandidateState<T>) -> Self {
         let ReplicationConfig {
